@@ -769,6 +769,18 @@ theorem multi_error_leaf_asis_witness :
     (partialLoop mkErr own ⟨1, 0, []⟩ ["tags".toList] []).truncated = true := by
   decide
 
+/-- K05m, as shipped: `struct { B string `json:"Base" validate:"min=3"`; Base }` — the embedded struct, entered into
+    the field map under its Go name after `B`, took the entry `Base`: the body key `Base` (which encoding/json binds to
+    `B`) resolved to nothing and the leaf was not validated; after the repair it resolves to `B` -/
+theorem shadowed_by_embedded_asis_witness :
+    let fields : List (FieldInfo × Shape) :=
+      [(⟨"B".toList, "Base".toList, false, false, "min=3".toList⟩, .other),
+       (⟨"Base".toList, [], true, true, []⟩, .struct [(⟨"ID".toList, "id".toList, false, false, []⟩, .other)])]
+    fieldIndexAsIs fields "Base".toList = some 1 ∧
+    fieldIndex fields "Base".toList = some 0 ∧
+    ruleAt (.ptr (.struct fields)) "Base".toList = some ([0], "min=3".toList) := by
+  decide
+
 /-- K05f: as shipped only the error's own path was put to the redactor: an error on `kids` whose
     printed value reveals `kids.1.secret` was not hidden although the redactor covers that path -/
 theorem nested_redaction_asis_witness :
@@ -1144,7 +1156,7 @@ theorem resolve_never_dash_field (fields : List (FieldInfo × Shape)) (name : By
           rw [hg] at hfs
           cases hfs
           simp only [mapsTo, Bool.and_eq_true, bne_iff_ne, ne_eq, Bool.not_eq_true', beq_iff_eq] at hm
-          exact ⟨hm.1.1, hm.2, by simpa using hp, hg⟩
+          exact ⟨hm.1.1.1, hm.2, by simpa using hp, hg⟩
 
 /-- a field of the struct itself takes precedence over anything its embedded structs promote, and a numeric
     segment on a struct is a field *name* (K05d): `resolvePath` on a struct never consults `Atoi` -/
